@@ -29,6 +29,7 @@ META = {
     "assumptions": ["same interpreter configuration (PYTHONHASHSEED) for both replays"],
     "not_decided": "dependence on set iteration order under different hash seeds; third-party determinism",
 }
+META["explanation"] += ' Also: calls through names bound to the random modules, parallel execution, tqdm display state, descriptors keeping values on themselves.'
 MIN_INSTANCES = {"E1": 15, "E2": 1, "E3": 2, "E4": 1, "FIXTURE": 1}
 
 CLOCKS = ("time.", "datetime.", "uuid.", "secrets.", "os.urandom", "os.getpid", "os.times", "socket.", "platform.node")
